@@ -148,7 +148,7 @@ class GSABaseAttributionMethod(BlackBoxExplainer):
             perturbator = self.perturbation_function(inp)
             outputs = None
 
-            for batch_masks in batch_tensor(self.masks, self.batch_size):
+            for batch_masks in batch_tensor(self.masks, self.batch_size or len(self.masks)):
 
                 batch_x, batch_y = self._batch_perturbations(
                     batch_masks, perturbator, target, input_shape
